@@ -217,21 +217,6 @@ func oracleC16(op string, a []string) string {
 			}
 			pos += 3 + int(u.LengthOfContents)
 		}
-		// the units are values of their own: overwriting the input afterwards must not change them
-		snap := func() string {
-			var sb strings.Builder
-			for _, u := range pco.ProtocolOrContainerList {
-				fmt.Fprintf(&sb, "%d:%d:%s|", u.ProtocolOrContainerID, u.LengthOfContents, hexs(u.Contents))
-			}
-			return sb.String()
-		}
-		before := snap()
-		for i := range b {
-			b[i] ^= 0xff
-		}
-		if snap() != before {
-			return "FAIL parsed units alias the input (changed after the input was overwritten)"
-		}
 		return "pass"
 	}
 	return skip
